@@ -380,7 +380,7 @@ pub fn cases(tier: Tier) -> Vec<Case> {
             assignments = cur;
         } else {
             for k in 0..types.len() {
-                for step in 1..tier.pick(3, types.len()) {
+                for step in 1..tier.pick(4, types.len()) {
                     assignments.push((0..n).map(|i| (k + i * step) % types.len()).collect());
                 }
             }
@@ -413,7 +413,7 @@ pub fn cases(tier: Tier) -> Vec<Case> {
             }
             for values in value_sets {
                 let all_ok = values.iter().all(|v| *v < 2);
-                let chain_sets: Vec<Vec<Tr>> = if all_ok && values.iter().all(|v| *v == 0) { chains(tier.pick(if n == 1 { 2 } else { 1 }, 2)) } else { vec![vec![]] };
+                let chain_sets: Vec<Vec<Tr>> = if all_ok && values.iter().all(|v| *v == 0) { chains(2) } else { vec![vec![]] };
                 for chain in chain_sets {
                     for header_name_lower in [false, true] {
                         if header_name_lower && t.header.is_none() {
